@@ -27,6 +27,10 @@ type Handler struct {
 	lockFile  *ControlFile
 	tempFile  *ControlFile
 
+	// created is set once this handler has created the file. A handler that failed earlier must not remove a
+	// file of the same name that another process has created in the meantime.
+	created bool
+
 	closed bool
 }
 
@@ -106,6 +110,7 @@ func NewHandlerForCreate(path string) (*Handler, error) {
 		return h, closeIsolatedHandler(h, err)
 	}
 	h.fp = fp
+	h.created = true
 	return h, nil
 }
 
@@ -174,7 +179,7 @@ func (h *Handler) close() error {
 		h.fp = nil
 	}
 
-	if h.openType == ForCreate && Exists(h.path) {
+	if h.openType == ForCreate && h.created && Exists(h.path) {
 		if err := os.Remove(h.path); err != nil {
 			return err
 		}
@@ -263,7 +268,7 @@ func (h *Handler) closeWithErrors() error {
 		}
 	}
 
-	if h.openType == ForCreate && Exists(h.path) {
+	if h.openType == ForCreate && h.created && Exists(h.path) {
 		if err := os.Remove(h.path); err != nil {
 			errs = append(errs, err)
 		}
